@@ -84,7 +84,8 @@ acc!(q_acc_union2, q_acc_clone_union2, q_acc_rel_union2, U2<Dt>, mk_dt());
 acc!(q_acc_raw, q_acc_clone_raw, q_acc_rel_raw, Raw<Dt>, mk_dt());
 acc!(q_acc_thin, q_acc_clone_thin, q_acc_rel_thin, ThinArc<Dt, Dt>, mk_hs_n::<2>());
 acc!(r0_acc_rawthin, r0_acc_clone_rawthin, r0_acc_rel_rawthin, RawThin<Dt, Dt>, mk_hs_n::<1>());
-acc!(r1_acc_swap, r1_acc_clone_swap, r1_acc_rel_swap, Swp<Dt>, mk_dt());
+acc!(q_acc_swap, q_acc_clone_swap, r1_acc_rel_swap, Swp<Dt>, mk_dt());
+acc!(r2_acc_swapthin, q_acc_clone_swapthin, r0_acc_rel_swapthin, SwpThin<Dt, Dt>, mk_hs_n::<1>());
 // over-aligned payload: the count word is NOT the word right in front of the data (padding is)
 acc!(q_acc_offset_a32, r0_acc_clone_offset_a32, r1_acc_rel_offset_a32, OffsetArc<S33a32>, mk_a32());
 acc!(r2_acc_arc_a32, r1_acc_clone_arc_a32, r0_acc_rel_arc_a32, Arc<S33a32>, mk_a32());
